@@ -67,6 +67,10 @@ type c14Obs struct {
 	RefStage string    `json:"refStage"` // ok deps-error coalesce-error
 	Violated []string  `json:"violated"`
 	Pairs    []c14Pair `json:"pairs"`
+	// lint only: verdict of the real install (template mode, validation not skipped) on the same input
+	InstallKnown    bool     `json:"installKnown,omitempty"`
+	InstallRejected bool     `json:"installRejected,omitempty"`
+	InstallNames    []string `json:"installNames,omitempty"`
 
 	chartTerm string
 	compat    string
@@ -143,15 +147,6 @@ func namedCharts(msg string, c *vChart) []string {
 
 // ---------- reference run for the oracle and the [valid] differential
 
-func schemaIndex(c *vChart, idx map[string]*vSchema) {
-	if c.Schema != nil {
-		idx[string(c.Schema.bytes())] = c.Schema
-	}
-	for _, s := range c.Charts {
-		schemaIndex(s, idx)
-	}
-}
-
 func (o *c14Obs) reference(c c14Case) {
 	ch, err := loader.LoadFiles(c.Chart.files("", c14Template))
 	if err != nil {
@@ -169,30 +164,60 @@ func (o *c14Obs) reference(c c14Case) {
 		return
 	}
 	o.RefStage = "ok"
-	idx := map[string]*vSchema{}
-	schemaIndex(c.Chart, idx)
-	var walk func(x *chart.Chart, slice map[string]any)
-	walk = func(x *chart.Chart, slice map[string]any) {
-		if x.Schema != nil {
-			ok := chartutil.ValidateAgainstSingleSchema(slice, x.Schema) == nil
+	// the schema of each kept chart is taken from the chart AS LOADED (the description), found
+	// through the name the chart carries after processing - not from the processed object
+	var walk func(x *chart.Chart, d *vChart, slice map[string]any)
+	walk = func(x *chart.Chart, d *vChart, slice map[string]any) {
+		if d.Schema != nil {
+			ok := chartutil.ValidateAgainstSingleSchema(slice, d.Schema.bytes()) == nil
 			if !ok {
 				o.Violated = append(o.Violated, x.Name())
 			}
-			if s := idx[string(x.Schema)]; s != nil {
-				o.Pairs = append(o.Pairs, c14Pair{Chart: x.Name(), Valid: ok,
-					term: fmt.Sprintf("(%s, %s, %s)", coqSchema(s), coqVal(slice), coqBool(ok))})
-			}
+			o.Pairs = append(o.Pairs, c14Pair{Chart: x.Name(), Valid: ok,
+				term: fmt.Sprintf("(%s, %s, %s)", coqSchema(d.Schema), coqVal(slice), coqBool(ok))})
 		}
-		for _, d := range x.Dependencies() {
-			sub, _ := slice[d.Name()].(map[string]any)
+		for _, k := range x.Dependencies() {
+			sub, _ := slice[k.Name()].(map[string]any)
 			if sub == nil {
 				continue
 			}
-			walk(d, sub)
+			dk, amb := descOf(d, k.Name())
+			if dk == nil || amb {
+				o.RefStage = "ambiguous" // two chart directories could be behind this name
+				return
+			}
+			walk(k, dk, sub)
 		}
 	}
-	walk(ch, cv)
+	walk(ch, c.Chart, cv)
 	sort.Strings(o.Violated)
+}
+
+// installVerdict: does the real install (template mode: dry-run, client-only, validation NOT
+// skipped) reject the chart + values with the schema error?  Used as the second real entry
+// point in the lint differential.
+func c14InstallVerdict(c c14Case) (rejected bool, names []string, ok bool) {
+	defer func() {
+		if p := recover(); p != nil {
+			ok = false
+		}
+	}()
+	ch, err := loader.LoadFiles(c.Chart.files("", c14Template))
+	if err != nil {
+		return false, nil, false
+	}
+	cfg, _ := c14Config()
+	in := action.NewInstall(cfg)
+	in.ReleaseName, in.Namespace = "rel", "spaced"
+	in.DryRun, in.DryRunOption, in.ClientOnly, in.Replace = true, "client", true, true
+	_, err = in.Run(ch, deepCopyVals(c.Vals))
+	if err == nil {
+		return false, nil, true
+	}
+	if strings.Contains(err.Error(), c14SchemaPhrase) {
+		return true, namedCharts(err.Error(), c.Chart), true
+	}
+	return false, nil, false // failed for another reason: not comparable
 }
 
 // ---------- the real operations
@@ -225,6 +250,9 @@ func (*c14) Execute(ci any) (res any) {
 	obs.chartTerm = coqChart(ch, c.Chart)
 	obs.compat = compatTable(ch)
 	obs.reference(c)
+	if c.Op == "lint" || c.Op == "cmd-lint" {
+		obs.InstallRejected, obs.InstallNames, obs.InstallKnown = c14InstallVerdict(c)
+	}
 	if strings.HasPrefix(c.Op, "cmd-") {
 		obs.runCmd(c)
 		if obs.Names == nil {
@@ -368,6 +396,28 @@ func (*c14) Oracle(ci, oi any) []hx.Violation {
 		vs = append(vs, hx.Violation{Sig: "C14:false-reject-" + c.Op,
 			What: fmt.Sprintf("%s was rejected by the schema step (naming %v) although the library accepts every final slice", c.Op, obs.Names)})
 	}
+	if (c.Op == "lint" || c.Op == "cmd-lint") && obs.InstallKnown {
+		// differential between the two real entry points: lint must agree with install
+		if !c.Skip && obs.Schema != obs.InstallRejected {
+			vs = append(vs, hx.Violation{Sig: "C14:lint-templates-rule-disagrees-with-install",
+				What: fmt.Sprintf("lint's templates rule schema verdict = %v (naming %v) but install on the same chart and values: rejected = %v (naming %v)",
+					obs.Schema, obs.Names, obs.InstallRejected, obs.InstallNames)})
+		}
+		topRejected := false
+		for _, n := range obs.InstallNames {
+			if n == c.Chart.Name {
+				topRejected = true
+			}
+		}
+		if obs.LintVals && !obs.InstallRejected {
+			vs = append(vs, hx.Violation{Sig: "C14:lint-values-rule-rejects-what-install-accepts",
+				What: "lint's values.yaml rule reports a schema error although install accepts the same chart and values"})
+		}
+		if len(c.Chart.Charts) == 0 && topRejected && !obs.LintVals {
+			vs = append(vs, hx.Violation{Sig: "C14:lint-values-rule-accepts-what-install-rejects",
+				What: "install rejects the values against the chart's own schema but lint's values.yaml rule reports nothing"})
+		}
+	}
 	if c.Skip && obs.Schema && c.Op != "lint" && c.Op != "cmd-lint" {
 		vs = append(vs, hx.Violation{Sig: "C14:skip-not-honoured-" + c.Op, What: c.Op + " ran the schema gate although skip-schema-validation was set"})
 	}
@@ -487,6 +537,15 @@ func (*c14) Corpus() []any {
 	for _, op := range []string{"lint", "install", "template", "upgrade"} {
 		out = append(out, c14Case{Kind: "corpus", Op: op, Chart: nullDefault(), Vals: tbl("sec", tbl("other", 1.0))})
 		out = append(out, c14Case{Kind: "corpus", Op: op, Chart: nullUser(), Vals: tbl("sec", tbl("flag", nil))})
+	}
+	// lint must see a supplied nested table MERGED with the table of values.yaml, as install does
+	nestedTable := func() *vChart {
+		return &vChart{Name: "top", Version: "1.0.0", Values: tbl("db", tbl("user", "u", "password", "p")),
+			Schema: &vSchema{Type: "object", Props: map[string]*vSchema{"db": {Type: "object", Required: []string{"user", "password"}}}}}
+	}
+	for _, op := range []string{"lint", "cmd-lint", "install", "template"} {
+		out = append(out, c14Case{Kind: "corpus", Op: op, Chart: nestedTable(), Vals: tbl("db", tbl("user", "x"))})
+		out = append(out, c14Case{Kind: "corpus", Op: op, Chart: nestedTable(), Vals: tbl("db", tbl("user", "x", "password", nil))})
 	}
 	// CRD caveat: crds/ are installed before the values are validated
 	out = append(out, c14Case{Kind: "corpus", Op: "install", Chart: mk(true), Vals: tbl("replicas", -1.0, "subb", tbl("enabled", false))})
@@ -678,6 +737,12 @@ var c14Ops = []string{"install", "install", "install-dry", "template", "upgrade"
 func (*c14) Generate(r *rand.Rand, _ int) any {
 	g := &c14Gen{&c11Gen{r: r, malformed: r.Intn(15) == 0}}
 	t := g.tree()
+	op := c14Ops[r.Intn(len(c14Ops))]
+	if op == "lint" && r.Intn(4) == 0 {
+		// a chart without subcharts: there lint's values.yaml rule and install must agree exactly
+		t = &vChart{Name: "top", Version: "1.0.0"}
+		t.Values = g.vals(t, 0)
+	}
 	g.schemas(t, true)
 	if r.Intn(8) == 0 {
 		t.CRDs = true
@@ -698,6 +763,6 @@ func (*c14) Generate(r *rand.Rand, _ int) any {
 			}
 		}
 	}
-	return c14Case{Kind: "gen", Op: c14Ops[r.Intn(len(c14Ops))], Skip: r.Intn(6) == 0, SkipCRDs: r.Intn(4) == 0,
+	return c14Case{Kind: "gen", Op: op, Skip: r.Intn(6) == 0, SkipCRDs: r.Intn(4) == 0,
 		Chart: t, Vals: deepCopyVals(vals)}
 }
